@@ -260,6 +260,21 @@ class FortranAST:
 
         return current
 
+    @staticmethod
+    def is_nested_in(scope, root) -> bool:
+        """Whether ``scope`` is ``root`` or one of its direct or indirect children"""
+        pending = [root]
+        seen = set()
+        while pending:
+            obj = pending.pop()
+            if obj is scope:
+                return True
+            if id(obj) in seen:
+                continue
+            seen.add(id(obj))
+            pending.extend(getattr(obj, "children", None) or [])
+        return False
+
     def resolve_includes(self, workspace, path: str | None = None):
         file_dir = os.path.dirname(self.path)
         for inc in self.include_statements:
@@ -284,8 +299,11 @@ class FortranAST:
                     added_entities = []
                     for child in list(include_ast.inc_scope.children):
                         # Files including each other: never make a scope its own ancestor
-                        if parent_scope is not None and child.links_back(
-                            parent_scope, "parent"
+                        # (an entity adopted by several includers has one parent
+                        # pointer only, so the children are followed as well)
+                        if parent_scope is not None and (
+                            child.links_back(parent_scope, "parent")
+                            or self.is_nested_in(parent_scope, child)
                         ):
                             continue
                         added_entities.append(child)
